@@ -190,7 +190,8 @@ impl<'a> Lx<'a> {
                     self.read_long(level, "comment")?;
                     out.push(Trivia { kind: TriviaKind::LongComment, start: st, end: self.pos });
                 } else {
-                    while !self.eof() && self.peek() != b'\n' {
+                    // a line comment ends at LF or CR (both Lua 5.1 and Luau stop at '\r')
+                    while !self.eof() && self.peek() != b'\n' && self.peek() != b'\r' {
                         self.pos += 1;
                     }
                     out.push(Trivia { kind: TriviaKind::LineComment, start: st, end: self.pos });
